@@ -489,7 +489,7 @@ prop("C14", engine="e1", rule=(
     thorough=dict(cases=30000, size=100,
                   also=[dict(engine="e5", variants=["catalogs"], workers=2,
                              cases=100000)]))
-prop("C15", engine="e1", rule=(
+prop("C15", engine="e1", program="c15", rule=(
     "random registry with one class left out, used as a listed base, a "
     "method parameter, a definition parameter (update must report "
     "unknown_class with its id) or as the dynamic class of a virtual "
@@ -499,7 +499,13 @@ prop("C15", engine="e1", rule=(
     "handler returns, which must abort); typed universe: per-class records "
     "(pack or type-list form) with one class omitted, every route, and "
     "final / virtual_shared_ptr::final given another dynamic type; checked "
-    "configurations only; non-trivial "
+    "configurations only. Third generator (programs of two translation "
+    "units, g++): an unregistered leaf class in an unnamed namespace of the "
+    "second unit - optionally with a different, registered class of the same "
+    "name in the first unit - used as a definition's parameter class (update "
+    "must report it) or as the dynamic class of an argument by reference or "
+    "through a virtual_ptr (the call must report it, once, no body); "
+    "non-trivial "
     "= left out as method/definition parameter, or dynamic at position >= 2 "
     "or through a virtual_ptr"),
     quick=dict(also=[dict(engine="e2", workers=4, cases=1500)], cases=10000, size=60), thorough=dict(also=[dict(engine="e2", workers=4, cases=20000)], cases=100000, size=100))
@@ -686,7 +692,7 @@ def replay_file(exe, path, fork=True):
 PROGRAM_ENGINES = {"c11": "proggen.c11", "c20": "proggen.c20",
                    "c13": "proggen.c13", "c07": "proggen.c07",
                    "c03": "proggen.c03", "c10": "proggen.c10",
-                   "c02": "proggen.c02"}
+                   "c02": "proggen.c02", "c15": "proggen.c15"}
 
 
 def program_module(name):
@@ -1179,7 +1185,7 @@ def write_manifest():
              "of another policy"},
             {"name": "e3", "path": "proggen",
              "serves_properties": ["C02", "C03", "C07", "C10", "C11", "C12",
-                                   "C13", "C20"],
+                                   "C13", "C15", "C20"],
              "kind_free_text": "seeded generators of C++ programs, compiled "
              "against /repo/include and run; the oracle is inside the "
              "generated program"},
